@@ -638,6 +638,25 @@ func shrinkNested(c *core.Ctx, nc *nestCase) *nestCase {
 			}
 		}
 	}
+	// simpler shredding schemas
+	if s0, err := parseSch(cur.Schema); err == nil {
+		budget := 80
+		for changed := true; changed && budget > 0; {
+			changed = false
+			for _, cand := range s0.simpler() {
+				if budget--; budget < 0 {
+					break
+				}
+				t := cur
+				t.Rows = cloneRows(cur.Rows)
+				t.Schema = cand.replayText()
+				if fails(&t) {
+					cur, s0, changed = t, cand, true
+					break
+				}
+			}
+		}
+	}
 	for _, simpler := range []func(*nestCase){
 		func(x *nestCase) { x.Optional = false },
 		func(x *nestCase) { x.Path = "writer" },
@@ -674,6 +693,40 @@ func shrinkNested(c *core.Ctx, nc *nestCase) *nestCase {
 		}
 	}
 	return &cur
+}
+
+// simpler: schemas one step smaller (a child in place of its parent, a field
+// dropped, a child simplified, int64 in place of another leaf).
+func (s *sch) simpler() []*sch {
+	var out []*sch
+	switch s.Kind {
+	case 'L':
+		out = append(out, s.Elem)
+		for _, e := range s.Elem.simpler() {
+			out = append(out, &sch{Kind: 'L', Elem: e})
+		}
+	case 'O':
+		out = append(out, s.Fields...)
+		if len(s.Fields) > 1 {
+			for i := range s.Fields {
+				out = append(out, &sch{Kind: 'O',
+					Names:  append(append([]string{}, s.Names[:i]...), s.Names[i+1:]...),
+					Fields: append(append([]*sch{}, s.Fields[:i]...), s.Fields[i+1:]...)})
+			}
+		}
+		for i, f := range s.Fields {
+			for _, e := range f.simpler() {
+				fs := append([]*sch{}, s.Fields...)
+				fs[i] = e
+				out = append(out, &sch{Kind: 'O', Names: s.Names, Fields: fs})
+			}
+		}
+	case 'P':
+		if s.Prim != "i3" || s.Plain {
+			out = append(out, &sch{Kind: 'P', Prim: "i3"})
+		}
+	}
+	return out
 }
 
 func runNestedCase(c *core.Ctx, nc *nestCase, bucket string) {
